@@ -7,6 +7,8 @@
      C24_utf8_roundtrip, C24_utf8_total_on_scalar_values, C24_output_decodes_to_emitted
          the one substantive result: the UTF-8 codec through which text enters and leaves on both sides is lossless
          on every string of Unicode scalar values (and only those are encodable).
+     C24_tool_codecs_are_utf8 (regenerated fact: the `encoding=` of the tool's four open() sites),
+     C24_utf8sig_input_refuted (what another codec would lose)
      C24_read_sources_is_direct(_no_cr), C24_exec_python_is_direct
          equalities between two HAND-WRITTEN compositions (C24/Model.v, same author) around abstract make_ffi /
          find_ffi / emit.  They record the argument — bytes -> text (UTF-8 + universal newlines) -> cffi ->
@@ -25,7 +27,7 @@
    (C24_read_sources_is_direct states the general case with universal_nl). *)
 From Coq Require Import List NArith ZArith Bool.
 Import ListNotations.
-From Cffi Require Import C35.PyStr C24.Utf8 C23.Model C24.Model C24.Proofs.
+From Cffi Require Import C35.PyStr C24.Utf8 C23.Model C24.Model C24.Gen C24.Proofs.
 Open Scope N_scope.
 
 Theorem C24_utf8_roundtrip : forall s b, utf8_encode s = Some b -> utf8_decode b = Some s.
@@ -39,19 +41,20 @@ Print Assumptions C24_utf8_total_on_scalar_values.
 
 Theorem C24_read_sources_is_direct : forall ffi make_ffi emit name cdef csrc bc bs,
   utf8_encode cdef = Some bc -> utf8_encode csrc = Some bs ->
-  gen_src_read_sources ffi make_ffi emit name bc bs =
+  gen_src_read_sources ffi make_ffi emit the_codecs name bc bs =
   direct ffi make_ffi emit name (universal_nl cdef) (universal_nl csrc).
 Proof. exact read_sources_is_direct. Qed.
 Print Assumptions C24_read_sources_is_direct.
 
 Theorem C24_read_sources_is_direct_no_cr : forall ffi make_ffi emit name cdef csrc bc bs,
   no_cr cdef -> no_cr csrc -> utf8_encode cdef = Some bc -> utf8_encode csrc = Some bs ->
-  gen_src_read_sources ffi make_ffi emit name bc bs = direct ffi make_ffi emit name cdef csrc.
+  gen_src_read_sources ffi make_ffi emit the_codecs name bc bs = direct ffi make_ffi emit name cdef csrc.
 Proof. exact read_sources_is_direct_no_cr. Qed.
 Print Assumptions C24_read_sources_is_direct_no_cr.
 
 Theorem C24_exec_python_is_direct : forall ffi find_ffi emit script var b, utf8_encode script = Some b ->
-  gen_src_exec_python ffi find_ffi emit b var = direct_of_script ffi find_ffi emit (universal_nl script) var.
+  gen_src_exec_python ffi find_ffi emit the_codecs b var =
+  direct_of_script ffi find_ffi emit (universal_nl script) var.
 Proof. exact exec_python_is_direct. Qed.
 Print Assumptions C24_exec_python_is_direct.
 
@@ -61,6 +64,22 @@ Theorem C24_output_decodes_to_emitted : forall ffi make_ffi emit name cdef csrc 
 Proof. exact output_decodes_to_emitted. Qed.
 Print Assumptions C24_output_decodes_to_emitted.
 
+(* the codecs the tool opens its files with (`the_codecs`, regenerated from the `encoding=` arguments of
+   _cffi_gen_src.py) are plain UTF-8; the *_is_direct statements above are about exactly these codecs, and the
+   next theorem shows what goes wrong otherwise: 'utf-8-sig' on an input drops a leading U+FEFF *)
+Theorem C24_tool_codecs_are_utf8 :
+  c_pyfile the_codecs = Utf8 /\ c_cdef the_codecs = Utf8 /\ c_csrc the_codecs = Utf8 /\ c_output the_codecs = Utf8.
+Proof. exact tool_codecs_are_utf8. Qed.
+Print Assumptions C24_tool_codecs_are_utf8.
+
+Theorem C24_utf8sig_input_refuted :
+  let cs := {| c_pyfile := Utf8; c_cdef := Utf8; c_csrc := Utf8Sig; c_output := Utf8 |} in
+  exists cdef csrc bc bs, utf8_encode cdef = Some bc /\ utf8_encode csrc = Some bs /\
+    gen_src_read_sources str (fun n c s => c ++ s) (fun x => x) cs [109] bc bs <>
+    direct str (fun n c s => c ++ s) (fun x => x) [109] cdef csrc.
+Proof. exact utf8sig_input_loses_bom. Qed.
+Print Assumptions C24_utf8sig_input_refuted.
+
 (* non-vacuity: "é€😀" <-> C3 A9 E2 82 AC F0 9F 98 80; an overlong form and a surrogate are rejected *)
 Example C24_example_codec :
   utf8_encode [233; 8364; 128512] = Some [195;169; 226;130;172; 240;159;152;128] /\
@@ -69,6 +88,6 @@ Example C24_example_codec :
 Proof. vm_compute. repeat split; reflexivity. Qed.
 
 Example C24_example_pipeline :
-  gen_src_read_sources str (fun n c s => n ++ [58] ++ c ++ [58] ++ s) (fun x => x ++ [10]) [109] [105;13;10] [195;169]
+  gen_src_read_sources str (fun n c s => n ++ [58] ++ c ++ [58] ++ s) (fun x => x ++ [10]) the_codecs [109] [105;13;10] [195;169]
   = Some [109;58;105;10;58;195;169;10].
 Proof. vm_compute. reflexivity. Qed.
